@@ -264,7 +264,11 @@ func (m *M) StoreLine() string {
 	var ts []string
 	for pid, toks := range m.W.Store.Tokens {
 		for _, t := range toks {
-			ts = append(ts, wire.Hex(pid)+"~"+m.unsha(t))
+			h := m.unsha(t)
+			if strings.HasPrefix(h, "?") {
+				h = "?" // issued in a request whose response was never written: the nonce never left the server
+			}
+			ts = append(ts, wire.Hex(pid)+"~"+h)
 		}
 	}
 	sort.Strings(ts)
@@ -639,6 +643,7 @@ func (m *M) HTTP(b, route string, a Args, fault *world.Fault) *world.Result {
 	if fault != nil {
 		f = *fault
 	}
+	pre := m.snap(b)
 	var r *world.Result
 	if route == "prot" {
 		target := sp.path
@@ -829,6 +834,9 @@ func (m *M) HTTP(b, route string, a Args, fault *world.Fault) *world.Result {
 		m.Out.Logs = append(m.Out.Logs, fmt.Sprintf("%d\tPANIC %s", len(m.Out.Ops), r.Panic))
 	}
 	m.Out.Add(op, obs)
+	if fault == nil {
+		m.check(b, route, a, pre, r)
+	}
 	m.Out.Count("route:" + strings.SplitN(rt, ":", 2)[0])
 	m.Out.Count("resp:" + strings.SplitN(resp, ":", 3)[0] + ":" + func() string {
 		p := strings.SplitN(resp, ":", 3)
